@@ -101,6 +101,8 @@ def harness(cname, cfg, tup, kind):
             if ka == kb:
                 o.append("    kani::cover!(lr <= l%d && lr > l%d%s);  // duplicate key: the later one decides" % (
                     a, b, "".join(" && l%d == l%d" % (c, b) for c in range(b + 1, k) if tup[c] == kb)))
+                if not any(tup[c] == kb for c in range(b + 1, k)):
+                    o.append("    kani::cover!(want && lr > l%d && lr <= l%d);  // duplicate key raised the level: enabled above the old level" % (a, b))
                 continue
             sa = "" if ka is None else T[ka]
             sb = "" if kb is None else T[kb]
@@ -158,7 +160,7 @@ def harnesses(tier):
             continue
         cfg = CONFIGS[cname]
         txt = " + ".join("default" if i is None else "'%s'" % cfg["T"][i] for i in tup)
-        what = {"we": "would_enable / default_level", "mi": "Subscribe::register_callsite / Filter::callsite_enabled / max_level_hint on constructed metadata",
+        what = {"we": "would_enable / default_level / max_level_hint is a sound bound (enabled => level <= hint)", "mi": "Subscribe::register_callsite / Filter::callsite_enabled / max_level_hint on constructed metadata",
                 "me": "Subscribe::enabled / Filter::enabled on constructed metadata through the Layered stack"}[kind]
         out.append((hname(cname, cfg, tup, kind), t, "%s; %d directive(s) added in this order: %s" % (what, len(tup), txt),
                     kind, cname, tup))
